@@ -894,6 +894,113 @@ def w5(rep, f_foam, alphabet):
 
 
 # --------------------------------------------------------------------------
+# W12: the text form (.fm) writes every operand from the node
+# --------------------------------------------------------------------------
+
+# the one operand a saved text form may replace by a placeholder: the serial number tying a local declaration to its symbol
+# meaning, which is meaningful only inside the compilation that assigned it (foamNewDecl itself stores "unassigned")
+PLACEHOLDER_OK = {("FOAM_Decl", "w"): "Decl.symeIndex is a per-compilation serial number (foamNewDecl stores SYME_NUMBER_UNASSIGNED)"}
+
+
+def w12(rep, f_foam):
+    from .peval import peval
+    fn = f_foam.func("foamToSExpr0")
+    gs, _ = letter_groups(fn)
+    rec = f_foam.records.get("foam_info")
+    fields = [x[0] for x in rec["f"]]
+    argf_of = {}
+    for r in common.table_rows(f_foam.var("foamInfoTable")):
+        g = dict(zip(fields, r["c"]))
+        a = common.string_value(g["argf"])
+        if a:
+            argf_of[common.enum_name(g["tag"])] = a
+    tagval = f_foam.enum_values("foamTag") if "foamTag" in f_foam.enums else None
+    if tagval is None:
+        tagval = {n: v[1] for n, v in f_foam.enum_by_const.items() if n.startswith("FOAM_")}
+    # locals of the function assigned once from a pure condition on the tag (isDecl)
+    flags = {}
+    for x in walk(fn["body"]):
+        if x["k"] == "BinaryOperator" and x["op"] == "=":
+            l = strip(x["c"][0])
+            if l is not None and l["k"] == "DeclRefExpr" and "hdr.tag" in render(x["c"][1]).replace("->", ".").replace(" ", ""):
+                flags.setdefault(l["n"], []).append(x["c"][1])
+    seen = set()
+    n = 0
+    for letter, g in sorted(gs.items()):
+        if letter == "default" or id(g) in seen:
+            continue
+        seen.add(id(g))
+        letters = [chr(l[1]) for l in g["labels"] if l[1] is not None]
+        body = {"k": "CompoundStmt", "c": g["stmts"], "id": -1, "l": g["line"]}
+        par = common.parents(body)
+        for x in walk(body):
+            if not (x["k"] == "BinaryOperator" and x["op"] == "="):
+                continue
+            lhs = strip(x["c"][0])
+            if lhs is None or lhs["k"] != "DeclRefExpr":
+                continue
+            if const_value(x["c"][1]) is None:
+                continue                                   # written from something computed: the operand (checked by W5/W9)
+            # a constant stored into the value that is written: under which condition?
+            conds = []
+            cur = x
+            while cur["id"] in par:
+                p_ = par[cur["id"]]
+                if p_["k"] == "IfStmt":
+                    if any(y is cur for y in walk(p_["c"][1])):
+                        conds.append((p_["c"][0], True))
+                    elif len(p_["c"]) > 2 and p_["c"][2] is not None and any(y is cur for y in walk(p_["c"][2])):
+                        conds.append((p_["c"][0], False))
+                cur = p_
+            for tag, argf in sorted(argf_of.items()):
+                for lt in letters:
+                    if lt not in argf:
+                        continue
+                    env = {}
+
+                    def lookup(node, env_, tag=tag, lt=lt):
+                        r = render(node).replace(" ", "")
+                        if r.endswith("hdr.tag") or r.endswith("hdr.tag)"):
+                            return tagval.get(tag)
+                        if node["k"] == "ArraySubscriptExpr" and render(strip(node["c"][0])) == "argf":
+                            return ord(lt)
+                        if node["k"] == "DeclRefExpr" and node["n"] in flags and len(flags[node["n"]]) == 1:
+                            return peval(flags[node["n"]][0], {}, lookup)
+                        if node["k"] == "CallExpr":
+                            return None
+                        return None
+                    enabled = 1
+                    for c, pol in conds:
+                        v = peval(c, env, lookup)
+                        if v is None:
+                            if "DEBUG" in render(c) or "Debug" in render(c):
+                                v = 0 if pol else 1            # debugging switches are off in a normal run
+                            else:
+                                enabled = None
+                                break
+                        if bool(v) != pol:
+                            enabled = 0
+                            break
+                    key = "text-form-writes-operand:%s:%s" % (tag, lt)
+                    if enabled == 0:
+                        continue
+                    n += 1
+                    where = "foam.c:%d (foamToSExpr0)" % x["l"]
+                    if enabled is None:
+                        raise AnalysisBroken("foamToSExpr0: cannot decide whether the constant stored at line %d is written for %s"
+                                             % (x["l"], tag))
+                    if (tag, lt) in PLACEHOLDER_OK:
+                        rep.ok("W12", key, sample={"placeholder allowed": PLACEHOLDER_OK[(tag, lt)]})
+                    else:
+                        rep.violation("W12", key, where,
+                                      "the .fm writer stores the constant %s instead of the '%s' operand of %s (format \"%s\"): the "
+                                      "field is lost when the unit is saved as text and read back (for GDecl it is the return type "
+                                      "of a foreign import: generating C from the .fm then fails)"
+                                      % (const_value(x["c"][1]), lt, tag[5:], argf))
+    rep.floor("placeholder stores in the text-form writer", n, 1)
+
+
+# --------------------------------------------------------------------------
 # W3: sections of the object file (names only; the record codecs of lib.c are data dependent)
 # --------------------------------------------------------------------------
 
@@ -1249,6 +1356,7 @@ def run(tier, only=None):
     w9(rep)
     w10(rep)
     w11(rep)
+    w12(rep, f_foam)
     f_sefo = common.extract("sefo.c", all_trees=True)
     w6(rep, f_sefo, widths)
     rep.assumptions += ["W7: for Lex/RElt/RRElt/EElt/IRElt/TRElt nodes the letter i of argf marks exactly the fields written with the "
